@@ -737,7 +737,7 @@ def _prof_diag_shapes(tier):
             S = 0 if ts else 1
             E = S + n
             ln = E + (0 if te else 1)
-            for ps in ((0,) if tier == 'quick' else (0, 2)):
+            for ps in ((0,) if tier == 'quick' else (0, 2, 3)):      # 3: a residue code with a negative self-score (X); ~230 s per shape, thorough only
                 out.append(dict(name='n%d_ts%d_te%d_p%d' % (n, ts, te, ps), defs=dict(KV_ROWS=ln, KV_LB=ln, KV_S=S, KV_E=E, KV_PSET=ps)))
     return out
 for (_ka, _kb), _nm in (((2, 1), 'seqprofile'), ((2, 2), 'profileprofile')):
